@@ -3,7 +3,7 @@
    harmless values: float comparisons = integer comparisons, every number finite, kernels outside
    the core family return empty data. *)
 From Coq Require Import List String Bool NArith ZArith QArith.
-From PV Require Import Shape.ShapeImpl Tables.OpSyntax Tables.OpRows Tables.ApiModel Tables.ApiTable Tables.ApiFacts Tables.RealSem.
+From PV Require Import Shape.ShapeImpl Tables.OpSyntax Tables.OpRows Tables.ApiModel Tables.ApiTable Tables.RealSem.
 Import ListNotations.
 Local Close Scope Q_scope.
 Local Open Scope string_scope.
@@ -23,7 +23,7 @@ Definition k_exp : fkey := ("functions", "exp", ["X"]).
 Definition AZ := @attr Z.
 
 Definition input (ds : list N) (b : N) (v : list Z) : call AZ :=
-  {| c_fn := k_input; c_args := [AAttr (ASh ds b); AAttr (AFs v); AAttr (ADev None)] |}.
+  {| c_fn := fk_input; c_args := [AAttr (ASh ds b); AAttr (AFs v); AAttr (ADev None)] |}.
 
 (* x = [2,3]x1 (column-major 1..6), k = []x2 (10, 20):
    2: k + x           scalar FIRST operand: the Node API evaluates it as add(x, k) (the exchanged row)
@@ -33,14 +33,14 @@ Definition input (ds : list N) (b : N) (v : list Z) : call AZ :=
 Definition prog_ok : list (call AZ) :=
   [ input [2; 3]%N 1%N [1; 2; 3; 4; 5; 6]%Z;
     input []%N 2%N [10; 20]%Z;
-    {| c_fn := k_add; c_args := [ARef 1 0; ARef 0 0] |};
+    {| c_fn := fk_add; c_args := [ARef 1 0; ARef 0 0] |};
     {| c_fn := k_sum; c_args := [ARef 2 0; AAttr (AU 0%N)] |};
     {| c_fn := k_transpose; c_args := [ARef 0 0] |};
     {| c_fn := k_matmul; c_args := [ARef 0 0; ARef 4 0] |};
-    {| c_fn := k_split; c_args := [ARef 0 0; AAttr (AU 1%N); AAttr (AU 3%N)] |};
-    {| c_fn := k_concat; c_args := [ARefs [(6, 2); (6, 0)]; AAttr (AU 0%N)] |};
+    {| c_fn := fk_split; c_args := [ARef 0 0; AAttr (AU 1%N); AAttr (AU 3%N)] |};
+    {| c_fn := fk_concat; c_args := [ARefs [(6, 2); (6, 0)]; AAttr (AU 0%N)] |};
     {| c_fn := k_multiply; c_args := [ARef 1 0; ARef 0 0] |};
-    {| c_fn := k_sub; c_args := [ARef 1 0; ARef 0 0] |};
+    {| c_fn := fk_sub; c_args := [ARef 1 0; ARef 0 0] |};
     {| c_fn := k_slice; c_args := [ARef 0 0; AAttr (AU 1%N); AAttr (AU 1%N); AAttr (AU 3%N)] |};
     {| c_fn := k_exp; c_args := [ARef 0 0] |} ].
 
@@ -75,12 +75,12 @@ Definition prog_bad_shape : list (call AZ) :=
 Definition prog_bad_batch : list (call AZ) :=
   [ input [2]%N 2%N [1; 2; 3; 4]%Z;
     input [2]%N 3%N [1; 2; 3; 4; 5; 6]%Z;
-    {| c_fn := k_add; c_args := [ARef 0 0; ARef 1 0] |} ].
+    {| c_fn := fk_add; c_args := [ARef 0 0; ARef 1 0] |} ].
 
 (* split([2,3], axis 1, n = 2): 3 % 2 != 0 -- the throw row of functions::split in both APIs *)
 Definition prog_bad_split : list (call AZ) :=
   [ input [2; 3]%N 1%N [1; 2; 3; 4; 5; 6]%Z;
-    {| c_fn := k_split; c_args := [ARef 0 0; AAttr (AU 1%N); AAttr (AU 2%N)] |} ].
+    {| c_fn := fk_split; c_args := [ARef 0 0; AAttr (AU 1%N); AAttr (AU 2%N)] |} ].
 
 (* identity_tensor(0): the Device entry's value guard `size == 0` (Tensor API) / Shape({0,0})
    throwing in FWD_SHAPE(Identity) (Node API), at the same call *)
@@ -100,7 +100,7 @@ Definition Qeager := real_eager 0%Q 1%Q Qplus Qmult Qminus Qopp Qle_bool (fun a 
 Definition Qcreate := @real_create Q.
 Definition AQ := @attr Q.
 Definition qin (ds : list N) (b : N) (v : list Q) : call AQ :=
-  {| c_fn := k_input; c_args := [AAttr (ASh ds b); AAttr (AFs v); AAttr (ADev None)] |}.
+  {| c_fn := fk_input; c_args := [AAttr (ASh ds b); AAttr (AFs v); AAttr (ADev None)] |}.
 Definition mk (k : fkey) (a : list (arg AQ)) : call AQ := {| c_fn := k; c_args := a |}.
 (* data_for of the harness: 0.25 * ((7 i) mod 5) + 0.5 *)
 Definition qdata (n : nat) : list Q := map (fun i => Qmake (Z.of_nat ((i * 7) mod 5) + 2)%Z 4) (seq 0 n).
